@@ -7,7 +7,10 @@ from .. import common, driver, gen, impl
 from .. import framework as fw
 
 GEN_SECTIONS = ["Unicode", "Regexes", "Tables"]
+# arithmetic leaf functions whose ASTs are dumped from /repo and proved equal to the hand model (lean/Chartparse/Tie/<X>.lean)
+LEAVES = {'BpmDecode': 'bpm', 'BpmValid': 'valid', 'Anchor': 'anchor'}
 TRUSTED = [
+    "leaf ties: Py.evalBody (embedded Python subset, validated against CPython on random expressions and against the real leaf functions every run) + the AST dump",
     "Lean 4 kernel; axioms ⊆ {propext, Classical.choice, Quot.sound}",
     "translator: sre parse tree of the shipped B/TS/A patterns -> Re terms; Python's \\d/\\s tables",
     "hand model of BPM decode (`int(raw)/1000`), `round(bpm,3)` validation, `2**lower`, anchor microseconds; "
@@ -176,7 +179,9 @@ def charts(ctx: fw.Ctx, out: fw.Outcome):
             t += rng.randint(1, 1000)
             src.tss.append((t, rng.randint(0, 64), rng.choice([None, rng.randint(0, 16)])))
         src.tss.sort(key=lambda x: x[0])
-        src.anchors = sorted((rng.randint(0, 5000), rng.choice([0, rng.randint(0, 10**9)])) for _ in range(rng.randint(0, 3)))
+        src.anchors = sorted((rng.randint(0, 5000), rng.choice([0, rng.randint(0, 10**9), rng.randint(2**53, 2**56), rng.randint(10**16, 8 * 10**19),
+                                                                 2**53 + 1, 8670214808394963]))
+                             for _ in range(rng.randint(0, 3)))  # microsecond values beyond what a double holds exactly
         cases.append((src, gen.render(src, rng, prof)))
     a, b = common.run_charts([(R.text, None) for _, R in cases])
     for (src, R), x, y in zip(cases, a, b):
